@@ -199,6 +199,13 @@ def gen_cases(ctx):
         add_seq(rows, keys, "five")
         P = rng.choice([1, 2, 3])
         add_par(rows, keys, rand_partition(rng, n, P), "five", taps=(rng.randint(0, 1),))
+    # 3b. distributed CLJP on many small digraphs over 2..3 ranks (bookkeeping between the on-process and off-process update
+    #     loops only goes wrong when local and off-process column indices coincide: about 1 in 3000 such inputs)
+    for _ in range(ctx.scale(9000, 60000)):
+        n = rng.randint(5, 8)
+        rows = rows_from_edges(n, rand_digraph(rng, n, p=rng.choice([0.25, 0.35, 0.5])))
+        P = rng.choice([2, 2, 3])
+        add_par(rows, keys_for(rng, n), rand_partition(rng, n, P), "cljp_small", algos=("cljp",), taps=(0,))
     # 4. sequential storage variants: unsorted rows, missing diagonals (stored rows stay non-empty)
     for _ in range(ctx.scale(150, 3000)):
         n = rng.randint(1, 9)
